@@ -5,10 +5,18 @@ certificate), a static world of retrievable certificates, several validator inst
 anchor) and a history of validations.  Real keys, real certificates (security_v2.self_sign /
 derive_cert), the real LVS compiler/checker, the real NDNApp (v1, the one the validator imports) on
 the virtual-time loop with a simulated certificate producer.
+
+The Lean driver runs the COMPOSED model on every case (`C14 pki`): it is given the compiled LVS model of each
+instance's schema, the defined user functions and the certificate world, and computes itself every Checker.check
+(exceptions included), the anchor's matches, root_of_trust, validate_user_fns, the construction outcome, every verdict
+(accept / refuse / exception class / no verdict) and every certificate Interest with its parameters (name,
+CanBePrefix, MustBeFresh, lifetime); all of these are compared with the real checker / validator / what the simulated
+producer receives.
 """
 import os, re, json, itertools, copy
 import lib
 import c14_lvs as LV        # stream family == 'lvs': the validator over generated Light VerSec schemas (C14 x C12)
+import lvs_common as LC     # protocol tokens of compiled LVS models (shared with C11-C13)
 
 PROP = 'C14'
 TITLE = 'The schema validator accepts exactly packets with a valid chain to the anchor'
@@ -18,27 +26,46 @@ THEOREMS = [
     'Ndn.C14.cache_inv_preserved', 'Ndn.C14.verdict_history_independent',
     'Ndn.C14.other_instances_irrelevant', 'Ndn.C14.system_verdict_iff_chain',
     'Ndn.C14.loop_never_accepted', 'Ndn.C14.construct_refuses', 'Ndn.C14.caught_exceptions',
+    # a signing check that raises (the exception is the outcome; nothing on the way catches it)
+    'Ndn.C14.check_raise_reaches_caller', 'Ndn.C14.nested_raise_propagates', 'Ndn.C14.raising_check_never_accepts',
+    'Ndn.C14.raise_has_cause', 'Ndn.C14.check_exception_uncaught',
+    # certificate fetching: which Interest is sent, which Data is taken, under which name a key is stored
+    'Ndn.C14.log_only_cert_interests', 'Ndn.C14.fetch_exact_name', 'Ndn.C14.fetched_key_only_under_requested_name',
+    'Ndn.C14.pit_exact_for_cert_interest', 'Ndn.C14.fetch_interest_params',
     # C14 x C12 (Props/C14Lvs.lean): real names, allowed := Checker.check of a loader-accepted LVS model
     'Ndn.C14.allowed_iff_schema_link', 'Ndn.C14.validate_sound_lvs', 'Ndn.C14.validate_complete_lvs',
     'Ndn.C14.verdict_iff_chain_lvs', 'Ndn.C14.verdict_iff_chain_compiled', 'Ndn.C14.system_verdict_iff_chain_lvs', 'Ndn.C14.lvs_chain_keys_matched',
     'Ndn.C14.chain_never_through_unmatched_key', 'Ndn.C14.unmatched_key_never_accepted', 'Ndn.C14.root_of_trust_spec',
     'Ndn.C14.construct_refuses_lvs', 'Ndn.C14.construct_refuses_missing_fns_lvs',
+    'Ndn.C14.check_raise_is_verdict_lvs', 'Ndn.C14.empty_name_raises_lvs', 'Ndn.C14.link_check_total_lvs',
 ]
 PARTIAL = {}
 TRUSTED = [
     'C14: ideal signatures - the crypto library verifies a signature under key bits k iff it was produced with the '
     'private key of k (Unforgeable/Correct are explicit hypotheses of the theorems; the correspondence instantiates them '
     'with the generator\'s ground truth of who signed)',
-    'C14: the generic theorems take the signing check as a parameter (`allowed`); the `_lvs` theorems instantiate it with the '
-    'Lean model of Checker.check / match / root_of_trust / validate_user_fns on a loader-accepted LVS model (C12 model, names = '
-    'lists of TLV components) - hypotheses as in C12: value edges deterministic (compiler output), user functions defined and '
-    'not raising (completeness directions only); that this model is the code is sampled by the C12 check and by the `lvs` '
-    'stream here; in the PKI stream the driver is still given the real checker\'s answers (`allowed`, `matched`, `roots`)',
-    'C14: an exception raised by Checker.check inside validate_name (empty packet name, raising user function) is read as '
-    '"not allowed" in the model (`lvsAllowed`); links on which the real check raises are not compared',
-    'C14: the world of retrievable certificates is static during a case; NDNApp.express_interest is reduced to '
-    'Data-of-that-name / Nack / timeout (PIT behaviour is C03); packet decoding is C01/C07; validity periods are not looked at '
-    'by the validator and are not part of the property',
+    'C14: the generic theorems take the signing check as a parameter (`allowed`, which may raise); the `_lvs` theorems '
+    'instantiate it with the Lean model of Checker.check / match / root_of_trust / validate_user_fns on a loader-accepted LVS '
+    'model (C12 model, names = lists of TLV components) - hypotheses as in C12: value edges deterministic (compiler output), '
+    'user functions defined and not raising (completeness directions only). That this model is the code is sampled by the C12 '
+    'check, by the `lvs` stream and by the PKI stream here: in BOTH streams the driver gets the compiled LVS model (as the real '
+    'compiler emitted it), the defined user functions and the certificate world, and computes every link\'s Checker.check, the '
+    'anchor\'s matched rules, root_of_trust, validate_user_fns, the construction and every verdict itself; the real checker\'s '
+    'answers are compared, never handed over',
+    'C14: an exception raised by Checker.check inside validate_name (empty packet name, raising user function, undefined user '
+    'function) is not caught by validate_name, union_checker, NDNApp._wait_for_data or CascadeChecker.validate (generated tables, '
+    'theorem check_exception_uncaught) and is the outcome of the validation at every depth (`Verdict.raise`, compared with the '
+    'class the real validator raises; classes without a constructor in the model - LvsModelError - compare as `Other`); trusted: a '
+    'user function does not itself raise ValidationFailure / InterestTimeout / InterestNack',
+    'C14: the world of retrievable certificates is static during a case and answers an Interest as a function of the whole '
+    'Interest (name, CanBePrefix, MustBeFresh, lifetime); NDNApp.express_interest is reduced to `express`: the returned Data is '
+    'taken iff it passes the pending-Interest test (same name, or CanBePrefix), else Nack / timeout (PIT behaviour is C03: the '
+    'test is tied to its specification by pit_exact_for_cert_interest, not re-proved from the PIT model); the Interest the model '
+    'sends (exact name, MustBeFresh, 4000 ms) is compared field by field with what the simulated producer receives; key locators '
+    'naming a certificate WITH its implicit digest are outside the model; packet decoding is C01/C07',
+    'C14: validity periods (and ContentType) of certificates are not looked at by the validator and are not part of the property; '
+    'the generator does include expired / not-yet-valid / ContentType!=KEY certificates on otherwise valid chains (deviation '
+    '`oddcert`): acceptance is what the model predicts and is compared; the oracle does not judge a refusal there',
     'C14: non-termination on certificate loops is modelled as fuel exhaustion = no verdict; the simulated producer stops '
     'answering after `budget` certificates',
 ]
@@ -49,10 +76,11 @@ RULE = ('PKIs over 5 LVS schema templates (site/admin/user/device, a flat varian
         'garbage key, other certificate served, key locator = KeyDigest, certificate missing while a validly signed '
         'schema-allowed Data one component longer exists [the simulated producer answers CanBePrefix Interests as a '
         'forwarder would], expired / not-yet-valid / ContentType!=KEY certificate [acceptance expected, refusal not '
-        'judged]; EC P-256 and P-384), 1..3 validator instances (own anchor, rival anchor, other schema, '
+        'judged], packet named `/` [Checker.check raises IndexError]; EC P-256 and P-384), 1..3 validator instances (own anchor, '
+        'rival anchor, other schema, a schema whose user function raises TypeError on /site/vdoc/... names, '
         'unbuildable ones) and 2..6 validations in random order, plus every permutation of small step sets; non-trivial = at '
         'least one certificate fetch or acceptance; distinct = distinct case descriptions. Stream `lvs` (c14_lvs.py): generated '
-        'LVS schemas (generator of C11-C13; half of the multi-root ones funnelled into one root), user_fns dictionaries '
+        'LVS schemas (generator of C11-C13; links on which the check raises are preferred when there are any; half of the multi-root ones funnelled into one root), user_fns dictionaries '
         'lacking some functions, up to 7 names (instances of root rules, signed/signer instances, near misses, some with an '
         'implicit digest) each tried as the name of a properly self-signed anchor, and 3..7 packets signed / not signed by an '
         'anchor; non-trivial there = one anchor accepted and one refused')
@@ -146,6 +174,14 @@ def tmpl_fn(s):
     return t
 
 
+def tmpl_fnraise(s):
+    """`ver` is constrained by a user function whose argument `zz` is bound only further right: when `ver` is tried
+    `zz` is unbound, `$eq_type` gets None and raises TypeError - Checker.check RAISES on every name /s/vdoc/x/y..."""
+    t = tmpl_flat(s)
+    t['extra'] = [f'#vdoc: "{s}"/"vdoc"/usr/ver/zz & {{ver: $eq_type(zz)}} <= #user']
+    return t
+
+
 def tmpl_amb(s):
     """a name /s/grp/grp/KEY/... matches both #ga and #gb: certificates may certify each other"""
     return {'rules': [
@@ -169,7 +205,7 @@ def with_bundles(schema):
 
 
 TEMPLATES = {'full': tmpl_full, 'loose': tmpl_loose, 'flat': tmpl_flat, 'tworoots': tmpl_tworoots, 'fn': tmpl_fn,
-             'amb': tmpl_amb}
+             'amb': tmpl_amb, 'fnraise': tmpl_fnraise}
 
 
 def lvs_text(schema):
@@ -420,10 +456,24 @@ def get_checker(schema, userfns=True):
     return _CHECKERS[k]
 
 
+PYERR = {'IndexError', 'ValueError', 'TypeError', 'KeyError', 'DecodeError', 'AttributeError', 'OverflowError'}
+
+
 def _exc_name(e):
+    """the exception class as the model names it (`PyErr.name`): subclasses of ValueError are ValueError, classes the
+    model has no constructor for (LvsModelError, ...) are `Other`"""
     if isinstance(e, ValueError):
         return 'ValueError'
-    return type(e).__name__
+    n = type(e).__name__
+    return n if n in PYERR else 'Other'
+
+
+def _real_check(checker, pkt, key):
+    """Checker.check on one link: '1' / '0' / 'E:<class>'"""
+    try:
+        return '1' if checker.check(pkt, key) else '0'
+    except Exception as e:          # noqa - the class is the observation
+        return 'E:' + _exc_name(e)
 
 
 # -------------------------------------------------------------------------------- implementation
@@ -458,11 +508,19 @@ def run_impl(case):
         for inst in case['insts']:
             schema = case['schemas'][inst['schema']]
             checker = get_checker(schema, inst.get('userfns', True))
+            try:
+                matched = sorted(set(sum((m[0] for m in checker.match(names[inst['anchor']])), start=[])))
+            except Exception as e:      # noqa - the class is the observation
+                matched = 'E:' + _exc_name(e)
+            # the real checker's answers are OBSERVATIONS compared with what the composed model computes (they are not
+            # handed to the model): validate_user_fns, root_of_trust, the anchor's matches, Checker.check on every link
             rec = {'roots': sorted(checker.root_of_trust()),
-                   'matched': sorted(set(sum((m[0] for m in checker.match(names[inst['anchor']])), start=[]))),
+                   'matched': matched,
                    'userfns': bool(checker.validate_user_fns()),
-                   'allowed': sorted(oid for oid in objs if kl_name(case, objs[oid]) is not None
-                                     and checker.check(names[oid], kl_name(case, objs[oid])))}
+                   'links': ['-' if kl_name(case, objs[oid]) is None
+                             else _real_check(checker, names[oid], kl_name(case, objs[oid])) for oid in sorted(objs)],
+                   'token': LC.enc_model(checker.model),
+                   'env': sorted(LC.mods()[6]) if inst.get('userfns', True) else []}
             try:
                 v = rig.loop.call_now(lvs_validator, checker, rig.app, wires[inst['anchor']])
                 rec['built'] = 'ok'
@@ -476,7 +534,7 @@ def run_impl(case):
         for (ii, oid) in case['steps']:
             v = validators[ii]
             if v is None:
-                out['steps'].append({'verdict': 'X', 'fetched': [], 'flags_ok': True})
+                out['steps'].append({'verdict': 'X', 'fetched': []})
                 continue
             name, _, _, sig = enc.parse_data(wires[oid])
             box = {}
@@ -489,7 +547,7 @@ def run_impl(case):
             cursor = len(face.sent)
             task = rig.loop.create_task(go())
             rig.loop.settle()
-            fetched, served, exhausted, flags_ok, idle = [], 0, False, True, 0
+            fetched, served, exhausted, idle = [], 0, False, 0
             while not task.done() and idle < 40:
                 new = face.sent[cursor:]
                 cursor = len(face.sent)
@@ -500,10 +558,8 @@ def run_impl(case):
                 for w in new:
                     iname, ipar, _, _ = enc.parse_interest(w)
                     uri = enc.Name.to_str(iname)
-                    if not exhausted:
-                        fetched.append(uri)
-                    if ipar.can_be_prefix or not ipar.must_be_fresh:
-                        flags_ok = False
+                    if not exhausted:       # the Interest as the simulated producer receives it
+                        fetched.append([uri, int(bool(ipar.can_be_prefix)), int(bool(ipar.must_be_fresh)), ipar.lifetime])
                     wo = case['world'].get(uri)
                     if wo is None and ipar.can_be_prefix:
                         # as a forwarder does: a CanBePrefix Interest is also satisfied by Data whose name extends it
@@ -531,8 +587,9 @@ def run_impl(case):
                 verdict = 'E:' + _exc_name(box['e'])
             else:
                 verdict = 'A' if box.get('r') else 'R'
-            out['steps'].append({'verdict': verdict, 'fetched': fetched, 'flags_ok': flags_ok,
-                                 'raw': repr(box.get('r')) if 'r' in box else None})
+            out['steps'].append({'verdict': verdict, 'fetched': fetched,
+                                 'raw': repr(box.get('r')) if 'r' in box else None,
+                                 'exc': type(box['e']).__name__ if 'e' in box else None})
         out['loop_errors'] = rig.loop.errors
         return out
 
@@ -543,9 +600,9 @@ def _ids(case, impl):
     oids = sorted(case['objs'])
     names = {}
     for oid in oids:
-        names.setdefault(fullname(case['objs'][oid]), len(names) + 1)
-    for n in case['world']:
-        names.setdefault(n, len(names) + 1)
+        names.setdefault(fullname(case['objs'][oid]), len(names))
+    for n in sorted(case['world']):
+        names.setdefault(n, len(names))
     kids = {}
     for oid in oids:
         for k in (case['objs'][oid].get('key'), case['objs'][oid].get('by')):
@@ -554,7 +611,21 @@ def _ids(case, impl):
     return oids, names, kids
 
 
+_NAMEHEX = {}
+
+
+def _name_token(uri):
+    if uri not in _NAMEHEX:
+        from ndn import encoding as enc
+        _NAMEHEX[uri] = LC.enc_name(enc.Name.from_str(uri))
+    return _NAMEHEX[uri]
+
+
 def model_line(case, impl):
+    """the COMPOSED model: the compiled LVS model of every instance's schema (as the real compiler emitted it), the
+    user functions that are defined, and the certificate world (names, who signed what with which key, what is
+    retrievable).  Nothing the real Checker answered is on the line: the driver computes every link's `allowed` with
+    `Ndn.Lvs.check`, the anchor's matched rules, `root_of_trust`, `validate_user_fns` and the construction itself."""
     if LV.is_lvs(case):
         return LV.model_line(case, impl)
     oids, names, kids = _ids(case, impl)
@@ -578,39 +649,53 @@ def model_line(case, impl):
     for n in sorted(case['world']):
         w = case['world'][n]
         wl.append(f"{names[n]}=" + (f"D{idx[w[1]]}" if w[0] == 'D' else w[0]))
-    il = []
+    models, il = [], []
     for inst, rec in zip(case['insts'], impl['insts']):
         anchor = case['objs'][inst['anchor']]
-        if anchor['key'] == 'empty':
+        if anchor['key'] == 'empty' or rec.get('token') is None:
             return None
-        al = [f"{names[fullname(case['objs'][oid])]}-{names[kl_name(case, case['objs'][oid])]}" for oid in rec['allowed']]
-        il.append('/'.join([str(idx[inst['anchor']]), '1' if rec['userfns'] else '0',
-                            ','.join(rec['roots']) or '.', ','.join(rec['matched']) or '.', ','.join(al) or '.']))
+        if rec['token'] not in models:
+            models.append(rec['token'])
+        il.append('/'.join([str(idx[inst['anchor']]), str(models.index(rec['token'])), ','.join(rec['env']) or '.']))
     sl = [f'{i}:{idx[oid]}' for i, oid in case['steps']]
-    return (f"C14 {case.get('budget', BUDGET)} {';'.join(ol) or '.'} {','.join(wl) or '.'} {';'.join(il) or '.'} "
-            f"{','.join(sl) or '.'}")
+    nl = [_name_token(u) for u, _ in sorted(names.items(), key=lambda kv: kv[1])]
+    return (f"C14 pki {case.get('budget', BUDGET)} {'/'.join(nl)} {'@'.join(models) or '.'} {';'.join(ol) or '.'} "
+            f"{','.join(wl) or '.'} {';'.join(il) or '.'} {','.join(sl) or '.'}")
+
+
+def _set(s):
+    return [] if s == '.' else sorted(set(s.split(',')))
 
 
 def model_obs(answer, case, impl):
     if LV.is_lvs(case):
         return LV.model_obs(answer, case, impl)
     assert answer.startswith('ok '), answer
-    _, ir, sr = answer.split(' ')
+    _, ir, sr, info = answer.split(' ')
     _, names, _ = _ids(case, impl)
     back = {str(v): k for k, v in names.items()}
     steps = []
     for tok in ([] if sr == '.' else sr.split(',')):
         v, log = tok.split('@')
-        steps.append([v, [back[x] for x in log.split('.') if x]])
-    return {'insts': [] if ir == '.' else ir.split(','), 'steps': steps}
+        ints = []
+        for x in (log.split('.') if log else []):
+            n, cbp, mbf, life = x.split('^')
+            ints.append([back[n], int(cbp), int(mbf), int(life)])
+        steps.append([v, ints])
+    infos = []
+    for tok in ([] if info == '.' else info.split(';')):
+        uf, roots, matched, links = tok.split('~')
+        infos.append([uf == '1', _set(roots), matched if matched.startswith('E:') else _set(matched),
+                      [] if links == '.' else links.split('+')])
+    return {'insts': [] if ir == '.' else ir.split(','), 'steps': steps, 'checker': infos}
 
 
 def impl_obs(impl):
     if impl.get('lvs'):
         return LV.impl_obs(impl)
     return {'insts': [r['built'] for r in impl['insts']],
-            'steps': [[s['verdict'] if s['flags_ok'] else s['verdict'] + '!interest-flags', s['fetched']]
-                      for s in impl['steps']]}
+            'steps': [[s['verdict'], s['fetched']] for s in impl['steps']],
+            'checker': [[r['userfns'], r['roots'], r['matched'], r['links']] for r in impl['insts']]}
 
 
 # ------------------------------------------------------------------------------------- oracle
@@ -760,6 +845,8 @@ class _Pki:
             name, signer = f'/{s}/reading/{ids[1]}/{ids[2]}/r{n}', self.cert('dev', ids[:3])
         elif kind == 'msg':
             name, signer = f'/{s}/msg/m{n}', self.cert('ga', ids[:1])
+        elif kind == 'vdoc':
+            name, signer = f'/{s}/vdoc/{ids[0]}/v=1/x{n}', self.cert('fuser', ids[:1])
         sk = self.case['objs'][signer]['key']
         return self.add({'kind': 'pkt', 'name': name, 'by': sk, 'kl': signer, 'mode': 'normal'})
 
@@ -775,7 +862,7 @@ def _chain_of(case, oid):
 
 
 DEVIATIONS = ['none', 'none', 'shape', 'skip', 'forged', 'subst', 'missing', 'nack', 'timeout', 'unsigned', 'loop',
-              'astype', 'hmac', 'emptykey', 'garbagekey', 'wrongdata', 'prefixdata', 'prefixdata', 'oddcert']
+              'astype', 'hmac', 'emptykey', 'garbagekey', 'wrongdata', 'prefixdata', 'prefixdata', 'oddcert', 'emptyname']
 
 
 def _inject(case, rng, alloc, pki, pkt_oid, dev):
@@ -788,9 +875,13 @@ def _inject(case, rng, alloc, pki, pkt_oid, dev):
         if d < 2:
             return 'none', 0
         i = rng.randrange(d - 1)
+    if dev == 'emptyname':                   # the packet itself is named `/`: Checker.check raises IndexError (name[-1])
+        i = 0
     signee, signer = objs[chain[i]], objs[chain[i + 1]]
     signer_is_anchor = (i + 1 == d)
-    if dev == 'shape':
+    if dev == 'emptyname':
+        signee['name'] = '/'
+    elif dev == 'shape':
         if signee['kind'] == 'pkt':
             parts = _comps(signee['name'])
             j = rng.randrange(1, len(parts))
@@ -937,7 +1028,11 @@ def _gen(rng, family='random'):
     elif r < 0.20:
         case['schemas']['S6'] = TEMPLATES['fn'](site)
         case['insts'].append({'schema': 'S6', 'anchor': h1.anchor, 'userfns': rng.random() < 0.5})
-    elif r < 0.32:     # an anchor that is not properly self-signed
+    elif r < 0.27:     # a schema on which Checker.check raises (TypeError out of a user function) for /site/vdoc/... names
+        case['schemas']['S7'] = TEMPLATES['fnraise'](site)
+        case['insts'].append({'schema': 'S7', 'anchor': h1.anchor, 'userfns': True})
+        pkts.append(h1.packet('vdoc', [usr], 8))
+    elif r < 0.36:     # an anchor that is not properly self-signed
         bad = dict(case['objs'][h1.anchor])
         bad['name'] = f'/{site}/KEY/zr'
         how = rng.choice(['other-key', 'astype', 'garbage', 'digest', 'hmac'])
@@ -1032,25 +1127,79 @@ def shrink(case):
 
 
 # ------------------------------------------------------------------------------------- tables
+import ast
+
+
+def _handlers(node):
+    out = []
+    for h in ast.walk(node):
+        if isinstance(h, ast.ExceptHandler):
+            t = h.type
+            elts = t.elts if isinstance(t, ast.Tuple) else ([t] if t is not None else [])
+            out.append([ast.unparse(e) for e in elts] if elts else ['BaseException'])
+    return out
+
+
+def _find(tree, name, kinds=(ast.FunctionDef, ast.AsyncFunctionDef)):
+    return [n for n in ast.walk(tree) if isinstance(n, kinds) and n.name == name]
+
+
+def _lst(hs):
+    return '[' + ', '.join('[' + ', '.join('"%s"' % c for c in h) + ']' for h in hs) + ']'
+
+
 def extract(repo):
-    """the exception classes `CascadeChecker.validate` catches around the certificate fetch"""
-    import ast
-    src = open(os.path.join(repo, 'src/ndn/security/validator/cascade_validator.py')).read()
-    caught = []
-    for node in ast.walk(ast.parse(src)):
-        if isinstance(node, ast.AsyncFunctionDef) and node.name == 'validate':
-            for h in ast.walk(node):
-                if isinstance(h, ast.ExceptHandler):
-                    t = h.type
-                    elts = t.elts if isinstance(t, ast.Tuple) else ([t] if t is not None else [])
-                    caught.append([ast.unparse(e) for e in elts] if elts else ['BaseException'])
-    body = ', '.join('[' + ', '.join('"%s"' % c for c in h) + ']' for h in caught)
-    return ('/- generated by harness/props/c14.py from src/ndn/security/validator/cascade_validator.py; do not edit -/\n'
+    """tables from the source: the `except` clauses on the way of an exception raised by `Checker.check` (inside
+    `CascadeChecker.validate`, `validate_name`, `union_checker`'s wrapper, around the validator call of
+    `NDNApp._wait_for_data`), the keyword arguments of the certificate fetch, `InterestParam`'s default lifetime"""
+    rd = lambda p: ast.parse(open(os.path.join(repo, p)).read())      # noqa
+    cas = rd('src/ndn/security/validator/cascade_validator.py')
+    caught, kwargs = [], []
+    for node in _find(cas, 'validate', (ast.AsyncFunctionDef,)):
+        caught += _handlers(node)
+        for c in ast.walk(node):
+            if isinstance(c, ast.Call) and isinstance(c.func, ast.Attribute) and c.func.attr == 'express_interest':
+                kwargs.append([[k.arg or '**', ast.unparse(k.value)] for k in c.keywords]
+                              + [['*%d' % i, ast.unparse(a)] for i, a in enumerate(c.args)])
+    vn = []
+    for node in _find(rd('src/ndn/app_support/light_versec/validator.py'), 'validate_name'):
+        vn += _handlers(node)
+    un = []
+    for node in _find(rd('src/ndn/security/validator/digest_validator.py'), 'union_checker'):
+        un += _handlers(node)
+    wv = []
+    for node in _find(rd('src/ndn/app.py'), '_wait_for_data'):
+        for t in ast.walk(node):
+            if isinstance(t, ast.Try):
+                calls = [c for b in t.body for c in ast.walk(b)
+                         if isinstance(c, ast.Call) and isinstance(c.func, ast.Name) and c.func.id == 'validator']
+                if calls:
+                    wv += _handlers(t)
+    life = []
+    for cls in _find(rd('src/ndn/encoding/ndn_format_0_3.py'), 'InterestParam', (ast.ClassDef,)):
+        for st in cls.body:
+            if isinstance(st, ast.AnnAssign) and getattr(st.target, 'id', None) == 'lifetime' and st.value is not None:
+                life.append(ast.unparse(st.value))
+    kw = kwargs[0] if len(kwargs) == 1 else [['?', '%d express_interest calls' % len(kwargs)]]
+    kws = '[' + ', '.join('("%s", "%s")' % (a, b.replace('"', "'")) for a, b in kw) + ']'
+    lf = life[0] if len(life) == 1 and life[0].isdigit() else '0'
+    return ('/- generated by harness/props/c14.py from src/ndn/security/validator/cascade_validator.py, '
+            'src/ndn/app_support/light_versec/validator.py, src/ndn/security/validator/digest_validator.py, src/ndn/app.py, '
+            'src/ndn/encoding/ndn_format_0_3.py; do not edit -/\n'
             'namespace Ndn.Gen.C14\n\n'
             '/-- the `except (...)` clauses inside `CascadeChecker.validate`, in source order -/\n'
-            f'def validateCaught : List (List String) := [{body}]\n\n'
+            f'def validateCaught : List (List String) := {_lst(caught)}\n\n'
+            '/-- the `except` clauses inside `lvs_validator`\'s `validate_name` -/\n'
+            f'def validateNameCaught : List (List String) := {_lst(vn)}\n\n'
+            '/-- the `except` clauses inside `union_checker` (its `wrapper`) -/\n'
+            f'def unionCaught : List (List String) := {_lst(un)}\n\n'
+            '/-- the `except` clauses of the `try` statements of `NDNApp._wait_for_data` that enclose the call of the validator -/\n'
+            f'def waitValidatorCaught : List (List String) := {_lst(wv)}\n\n'
+            '/-- keyword (and positional, `*i`) arguments of the `express_interest` call inside `CascadeChecker.validate` -/\n'
+            f'def fetchKwargs : List (String × String) := {kws}\n\n'
+            '/-- the default of `InterestParam.lifetime` (0: not a literal) -/\n'
+            f'def defaultLifetime : Nat := {lf}\n\n'
             'end Ndn.Gen.C14\n')
-
 
 LEVEL_TEXT = ('Lean 4 theorems over a hand-written model of lvs_validator / union_checker / CascadeChecker.validate / _verify_sig '
               '/ MemoryKeyStorage (one storage per instance): soundness (accept -> chain), completeness (chain of depth < fuel -> '
@@ -1061,9 +1210,18 @@ LEVEL_TEXT = ('Lean 4 theorems over a hand-written model of lvs_validator / unio
               'accept <-> a chain whose every link is a C12 signing relation (packet name matches a node one of whose sign '
               'constraints is a node the key name matches under the packet\'s bindings), no accepted chain passes through a key '
               'name that matches no rule, root_of_trust = rule names of signer nodes without signers, construction built exactly '
-              'when the anchor name matches a node and every root-of-trust rule name. The model is tied to the code '
+              'when the anchor name matches a node and every root-of-trust rule name; a signing check that raises makes the '
+              'validation raise that exception at every depth (never an acceptance, never a refusal, nothing cached; no except '
+              'clause on the way - generated tables), on loader-accepted schemas with total user functions and non-empty names no '
+              'check raises; every Interest sent is the exact-name / MustBeFresh / 4000 ms Interest for a key locator (keyword '
+              'arguments of the express_interest call as a generated table), a returned Data is taken only if it has exactly the '
+              'requested name, and a key is stored only under the name that was requested and only as the content of such a Data. '
+              'The model is tied to the code '
               'on every run by differential execution of the compiled model against the real validator on the real NDNApp with '
-              'real keys and certificates, plus an independent chain oracle computed from the generator\'s ground truth.')
+              'real keys and certificates - the driver runs the COMPOSED model (compiled LVS model + certificate world; every '
+              'Checker.check, match, root_of_trust, construction, verdict, exception class and certificate Interest with its '
+              'parameters computed by the model and compared) - plus an independent chain oracle computed from the generator\'s '
+              'ground truth.')
 LEVEL_NOTE = ('Proof is about the model; model=code is sampled (differential testing), not proved. Signatures are ideal '
               '(explicit hypotheses); the LVS signing check is the C12 model in the `_lvs` theorems (a parameter in the generic ones); '
               'the world is static during a case.')
